@@ -30,7 +30,7 @@ ASSUMPTIONS = [
     "covered by Chen's relation in C03",
 ]
 REQUIRED_COUNTERS = ["A_pairs", "A_bridge_cases", "B_nodes", "B_davie", "B_foster", "C_elements", "D_stats",
-                     "A_halfway", "A_overlapping_pairs", "A_disjoint_pairs"]
+                     "A_halfway", "A_overlapping_pairs", "A_disjoint_pairs", "A_deep_cases", "B_deep_cases"]
 THRESHOLDS = {"A_cov_abs": 1e-11, "B_rel": 1e-10, "C_rel": 1e-10, "D_z": 5.5}
 K = 4096
 
@@ -68,8 +68,22 @@ def cases(tier, seed):
     for mon, n in (("A", nA), ("B", nB), ("C", nC)):
         for i in range(n):
             crng = random.Random(f"C04-{seed}-{mon}{i}")
-            out.append({"key": f"{mon}{i}", "monitor": mon, "cfg": cfg_for(mon, crng),
-                        "hseed": crng.randrange(10 ** 9), "cost": 1.0})
+            cfg = cfg_for(mon, crng)
+            if mon in ("A", "B") and i % 8 == 7:
+                # deep trees: two (or more) subtrees, each a chain more than 32 levels deep with the same left/right
+                # pattern - "twin": both halves queried, then each half walked in 36-44 sequential steps;
+                # "hinted": a dt hint with a large cache builds a few big leaves, a fixed-step sweep then hangs a
+                # chain of 60-80 steps below each of them
+                cfg.update(halfway=False, tol=0.0, supply="none")
+                cfg["deep"] = "twin" if (i // 8) % 2 == 0 else "hinted"
+                if cfg["deep"] == "hinted":
+                    cfg["cache"] = crng.choice([None, 100, 80])
+                    cfg["dthint"] = (cfg["t1"] - cfg["t0"]) / crng.choice([192, 256])
+                else:
+                    cfg["dthint"] = None
+                    cfg["cache"] = crng.choice([3, 45, None])
+            out.append({"key": f"{mon}{i}", "monitor": mon, "cfg": cfg,
+                        "hseed": crng.randrange(10 ** 9), "cost": 3.0 if cfg.get("deep") else 1.0})
     for i in range(nD):
         crng = random.Random(f"C04-{seed}-D{i}")
         out.append({"key": f"D{i}", "monitor": "D", "levy": ["davie", "foster", "space-time", "none"][i % 4],
@@ -90,6 +104,31 @@ def _build(cfg, W=None, H=None):
     if H is not None:
         kw["H"] = H
     return torchsde.BrownianInterval(**kw)
+
+
+def _deep_history(cfg, rng):
+    """Returns (kind, queries, probes): see cases()."""
+    t0, t1 = cfg["t0"], cfg["t1"]
+    span = t1 - t0
+    if cfg["deep"] == "twin":
+        n = rng.choice([36, 40, 44])
+        mid = t0 + 0.5 * span
+        left = [t0 + 0.5 * span * k / n for k in range(n)] + [mid]
+        right = [mid + 0.5 * span * k / n for k in range(n)] + [t1]
+        qs = [(t0, mid), (mid, t1)]
+        qs += [(left[k], left[k + 1]) for k in range(n)] + [(right[k], right[k + 1]) for k in range(n)]
+        late = [n - 1, n - 2, n - 3]
+        pr = [(left[k], left[k + 1]) for k in late] + [(right[k], right[k + 1]) for k in late]
+        pr += [(left[n - 6], left[n - 1]), (right[n - 6], right[n - 1])]
+        return "twin_chains", qs, pr
+    n = int(round(span / cfg["dthint"]))
+    pts = [t0 + span * k / n for k in range(n)] + [t1]
+    qs = [(pts[k], pts[k + 1]) for k in range(n)]
+    # probes: the last steps before each quarter point and before the end (late positions inside different leaves)
+    pr = []
+    for q in (n // 4, n // 2, 3 * n // 4, n):
+        pr += [(pts[q - 1], pts[q]), (pts[q - 2], pts[q - 1])]
+    return "hinted_sweep", qs, pr
 
 
 def _small_history(cfg, rng):
@@ -166,11 +205,29 @@ def run_A(case):
         Hsup[K - 2] = math.sqrt(span / 12)
     with lab.installed():
         bm = _build(cfg, Wsup, Hsup)
-        kind, qs = _small_history(cfg, rng)
+        if cfg.get("deep"):
+            kind, qs, pr = _deep_history(cfg, rng)
+        else:
+            kind, qs = _small_history(cfg, rng)
         fl = bmgen.flags_for(cfg)
-        for (a, b) in qs:
-            bm(a, b, **fl)
-        pr = _probe_intervals(cfg, rng, qs, 14)
+        tpd = probes.TreeProbe()
+        with tpd.installed():
+            for (a, b) in qs:
+                bm(a, b, **fl)
+            if cfg.get("deep"):
+                # how deep are the nodes that answer the probes?
+                depths = []
+                for (a, b) in pr:
+                    bm(a, b, **fl)
+                    node = tpd.last_pieces[0]
+                    dd = 0
+                    while node._parent is not None:
+                        node, dd = node._parent, dd + 1
+                    depths.append(dd)
+                mx["A_probe_node_depth"] = max(depths)
+                cnt["A_deep_cases"] = int(sum(1 for x in depths if x >= 34) >= 2)
+        if not cfg.get("deep"):
+            pr = _probe_intervals(cfg, rng, qs, 14)
         rows, labs = _rows(bm, cfg, pr)
         if Wsup is not None:
             Wtot = bm(cfg["t0"], cfg["t1"])
@@ -274,10 +331,15 @@ def run_B(case):
     tp = probes.TreeProbe()
     with so.installed(), tp.installed():
         bm = _build(cfg)
-        kind, qs = _small_history(cfg, rng)
+        if cfg.get("deep"):
+            kind, qs, pr = _deep_history(cfg, rng)
+            cnt["B_deep_cases"] = 1
+        else:
+            kind, qs = _small_history(cfg, rng)
         for (a, b) in qs:
             bm(a, b, return_U=True, return_A=True)
-        pr = _probe_intervals(cfg, rng, qs, 12)
+        if not cfg.get("deep"):
+            pr = _probe_intervals(cfg, rng, qs, 12)
         # make sure single-node queries are present: re-query stored pieces
         extra = []
         for (a, b) in pr:
@@ -497,5 +559,25 @@ def run_D(case):
             "sample": {"levy": levy, "N": N, "statistics": len(zs), "worst": [worst[0], round(worst[1], 2)]}}
 
 
+SEED_SENSITIVE = ("covariance_mismatch", "seed_shared_between_nodes_or_roles")
+
+
 def run_case(case):
-    return {"A": run_A, "B": run_B, "C": run_C, "D": run_D}[case["monitor"]](case)
+    res = {"A": run_A, "B": run_B, "C": run_C, "D": run_D}[case["monitor"]](case)
+    sus = [v for v in res.get("violations", []) if v["mechanism"].startswith(SEED_SENSITIVE)]
+    if sus and case["monitor"] in ("A", "B"):
+        # The library's per-node seeds are 32-bit, so two nodes share a seed by chance once in ~2^32/n^2 cases; that is
+        # inherent to the design and not a violation. A structural fault (nodes sharing seeds because of WHERE they are
+        # in the tree) repeats for every entropy, a chance collision does not: confirm with two other entropies.
+        again = 0
+        for bump in (1, 2):
+            c2 = dict(case, cfg=dict(case["cfg"], entropy=case["cfg"]["entropy"] + 7919 * bump))
+            r2 = {"A": run_A, "B": run_B}[case["monitor"]](c2)
+            again += any(v["mechanism"].startswith(SEED_SENSITIVE) for v in r2.get("violations", []))
+        if again == 0:
+            res["violations"] = [v for v in res["violations"] if v not in sus]
+            res.setdefault("counters", {})["chance_seed_collisions_discarded"] = 1
+        else:
+            for v in sus:
+                v["detail"] += f" [confirmed with {again}/2 other entropies]"
+    return res
